@@ -314,3 +314,43 @@ def subst_var(ev, r: Rat, var: str, val: Rat) -> Rat:
         return out
 
     return sp(r.n) / sp(r.d)
+
+
+SYNONYMS = {"dt": "delta_t", "u": "states", "voltages": "v", "voltage": "v", "state": "states"}
+
+
+def interface_agreement(repo, col, R, base_name, methods, min_count=4):
+    """Sibling implementations of one interface agree on the ORDER of their parameters (they are called positionally with the
+    order of the base class).  Names are compared modulo a few synonyms (dt / delta_t, u / states)."""
+    from sa.core import AnalysisError
+    base = repo.classes.get(base_name)
+    if base is None:
+        raise AnalysisError(f"class {base_name} vanished")
+    norm = lambda ps: [SYNONYMS.get(p_, p_) for p_ in ps if p_ not in ("self", "cls")]
+    n = 0
+    for meth in methods:
+        bfi = base.methods.get(meth)
+        if bfi is None:
+            raise AnalysisError(f"{base_name}.{meth} vanished")
+        bpar = norm(bfi.params)
+        for c in mech_classes(repo, base_name):
+            m = c.methods.get(meth)
+            if m is None:
+                continue
+            n += 1
+            par = norm(m.params)
+            # optional trailing parameters with defaults do not take part in the positional call
+            a_ = m.node.args
+            n_def = len(a_.defaults)
+            req = par[:len(par) - n_def] if n_def else par
+            if par == bpar or req == bpar:
+                col.ok(R, m, f"{c.name}.{meth}: parameter order of the interface", str(par), node=m.node)
+            elif sorted(req) == sorted(bpar):
+                col.bad(R, m, f"{c.name}.{meth}: parameter order of the interface",
+                        f"{c.name}.{meth}({', '.join(par)}) lists its parameters in another order than {base_name}.{meth}({', '.join(bpar)}); "
+                        f"the simulator passes them positionally, so the quantities arrive under each other's names", node=m.node)
+            else:
+                col.unk(R, m, f"{c.name}.{meth}: parameter order of the interface",
+                        f"parameters {par} cannot be matched by name with {base_name}.{meth}{bpar}", node=m.node)
+    if n < min_count:
+        raise AnalysisError(f"only {n} {base_name} interface methods found")
